@@ -74,6 +74,7 @@ type FuncVC struct {
 	aliases         map[string]string // contract name -> local variable standing in for it (see verifyWithAliases)
 	pureTuples      map[string]*pureTuple
 	pureTupleOrder  []string
+	sweepMode       bool
 	letOldCache     map[string]Val
 	immuneCells     []immuneCell
 	axiomStates     map[string]*State // heap versions spec functions were applied to
